@@ -266,6 +266,7 @@ func (s *SMT) CommitParallel(unsortedOps map[uint64]valueOp) (err lib.ErrorI) {
 		st := parentTxn.newSubtreeStore()
 
 		go func(idx int, ops []*node, root *node, store *subtreeStore) {
+			verifPoint("smt.worker.start", idx)
 			// build an isolated SMT scoped to this subtree's root and operations
 			subtree := &SMT{
 				store:        store,
@@ -279,6 +280,7 @@ func (s *SMT) CommitParallel(unsortedOps map[uint64]valueOp) (err lib.ErrorI) {
 			// prepare traversal state, then commit this subtree's operations
 			subtree.reset()
 			commitErr := subtree.commit(true)
+			verifPoint("smt.worker.done", idx)
 			// report the outcome back to the collector
 			resultChan <- subtreeResult{
 				index: idx,
